@@ -489,14 +489,55 @@ void Executor::addPC(State &s, const z3::expr &c) {
     if (sc.is_not()) s.fact[sc.arg(0).id()] = false; else s.fact[(!sc).simplify().id()] = false;
     if (sc.is_and()) for (unsigned i = 0; i < sc.num_args(); i++) { z3::expr a = sc.arg(i); s.fact[a.id()] = true; if (a.is_not()) s.fact[a.arg(0).id()] = false; }
 }
+// free variables (uninterpreted constants) of an expression, memoised by expression id
+static std::unordered_map<unsigned, std::shared_ptr<std::vector<unsigned>>> g_varCache;
+static void collectVars(const z3::expr &e, std::set<unsigned> &seen, std::set<unsigned> &out) {
+    if (!e.is_app()) return;
+    if (!seen.insert(e.id()).second) return;
+    if (e.num_args() == 0) { if (e.decl().decl_kind() == Z3_OP_UNINTERPRETED) out.insert(e.id()); return; }
+    for (unsigned i = 0; i < e.num_args(); i++) collectVars(e.arg(i), seen, out);
+}
+static const std::vector<unsigned> &varsOf(const z3::expr &e) {
+    auto it = g_varCache.find(e.id());
+    if (it != g_varCache.end()) return *it->second;
+    std::set<unsigned> seen, out; collectVars(e, seen, out);
+    auto v = std::make_shared<std::vector<unsigned>>(out.begin(), out.end());
+    if (g_varCache.size() > 2000000) g_varCache.clear();
+    g_varCache[e.id()] = v;
+    return *v;
+}
 z3::check_result Executor::check(State &s, const z3::expr &extra, unsigned timeoutMs, z3::model *outModel) {
     auto t = std::chrono::steady_clock::now();
     if (s.pcHasFP || isHeavy(extra)) {
+        // constraint independence: only the path constraints that (transitively) share a variable with the query can
+        // influence its satisfiability, PROVIDED the rest of the path condition is satisfiable - which is an invariant of
+        // every live state (a path is only continued on a side that was found feasible or not refuted).  A model is only
+        // complete for the slice, so queries that want a model are solved over the whole path condition.
+        std::vector<char> take(s.pc.size(), 0);
+        bool sliced = false;
+        if (!outModel && !opt.noSlice) {
+            std::set<unsigned> vars(varsOf(extra).begin(), varsOf(extra).end());
+            bool grew = true;
+            while (grew) {
+                grew = false;
+                for (size_t i = 0; i < s.pc.size(); i++) {
+                    if (take[i]) continue;
+                    const std::vector<unsigned> &cv = varsOf(s.pc[i]);
+                    bool hit = false;
+                    for (unsigned v : cv) if (vars.count(v)) { hit = true; break; }
+                    if (hit) { take[i] = 1; grew = true; for (unsigned v : cv) vars.insert(v); }
+                }
+            }
+            sliced = true;
+        }
+        bool heavy = isHeavy(extra);
+        if (sliced && !heavy) for (size_t i = 0; i < s.pc.size() && !heavy; i++) if (take[i] && isHeavy(s.pc[i])) heavy = true;
+        if (!sliced) heavy = true;
         // one-shot: bit-blast the whole conjunction (z3's incremental core is far slower on FP arithmetic)
-        z3::tactic tac(*ZC, "qffpbv");
+        z3::tactic tac(*ZC, heavy ? "qffpbv" : "smt");
         z3::solver one = tac.mk_solver();
         z3::params p(*ZC); p.set("timeout", timeoutMs); one.set(p);
-        for (auto &c : s.pc) one.add(c);
+        for (size_t i = 0; i < s.pc.size(); i++) if (!sliced || take[i]) one.add(s.pc[i]);
         one.add(extra);
         z3::check_result r;
         try { r = one.check(); } catch (z3::exception &e) { r = z3::unknown; }
